@@ -426,7 +426,9 @@ func (_this *Writer) WriteBigFloat(value *big.Float) {
 		return
 	}
 	asFloat, accuracy := value.Float64()
-	if accuracy == big.Exact && asFloat == 0 {
+	if accuracy == big.Exact {
+		// Same text as OnFloat gives for the same value, so that the output
+		// depends only on the value (and reads back as a float, not an integer).
 		_this.WriteFloat(asFloat)
 		return
 	}
